@@ -381,7 +381,6 @@ fn sets(acc: &mut Acc) {
         check_eq!(acc, "WeekdaySet::from_iter:dups", rev.iter().cloned().collect::<WeekdaySet>(), sa, format!("{:?}.into_iter().collect::<WeekdaySet>()", rev));
         let disp = format!("[{}]", members.iter().map(|w| WD_SHORT[wd_index(*w)]).collect::<Vec<_>>().join(", "));
         check_eq!(acc, "WeekdaySet::Display", sa.to_string(), disp, format!("{:?}.to_string()", sa));
-        check_eq!(acc, "WeekdaySet::Debug", format!("{:?}", sa), format!("WeekdaySet({:07b})", a), format!("Debug of set {:07b}", a));
         if a == 127 {
             check_eq!(acc, "WeekdaySet::ALL", WeekdaySet::ALL, sa, "WeekdaySet::ALL".to_string());
         }
